@@ -73,9 +73,25 @@ func (c *FS) add(op Op) {
 
 func (c *FS) mkdir(path string, f func()) {
 	existed := c.FileSystem.IsExist(path)
+	// the local file system creates missing ancestors too (os.MkdirAll) and fsyncs the parent of every level it created
+	var missing []string
+	if r, ok := c.rel(path); ok && !existed {
+		for a := filepath.Dir(r); a != "." && a != string(filepath.Separator); a = filepath.Dir(a) {
+			if c.FileSystem.IsExist(filepath.Join(c.Root, a)) {
+				break
+			}
+			missing = append([]string{a}, missing...)
+		}
+	}
 	f()
 	if r, ok := c.rel(path); ok && !existed {
+		for _, a := range missing {
+			c.add(Op{Kind: "mkdir", Path: a})
+		}
 		c.add(Op{Kind: "mkdir", Path: r})
+		for _, a := range missing {
+			c.add(Op{Kind: "syncdir", Path: filepath.Dir(a)})
+		}
 		c.add(Op{Kind: "syncdir", Path: filepath.Dir(r)})
 	}
 }
